@@ -4,6 +4,8 @@ import (
 	"bytes"
 	"encoding/json"
 	"fmt"
+	"strconv"
+	"strings"
 	"testing"
 )
 
@@ -197,6 +199,42 @@ func editCatalogue() []editClass {
 			}
 		})
 	}
+	// single-leaf edits inside structured content: exactly one scalar (or one list position) changes,
+	// so a sub-field the hash does not cover cannot hide behind its neighbours
+	for _, kind := range extKinds {
+		if kind == "ocspNoCheck" || kind == "custom" {
+			continue
+		}
+		kind := kind
+		entP("ext-leaf:"+kind, func(r *Rng, t *EntitySpec) { ensureExt(r, t, kind) }, func(r *Rng, n *EntitySpec) {
+			i := extOfKind(n, kind)
+			if c, ok := leafEdit(r, n.Exts[i].Content); ok {
+				n.Exts[i].Content = c
+			}
+		})
+	}
+	for _, kind := range extKinds {
+		kind := kind
+		entP("ext-critical:"+kind, func(r *Rng, t *EntitySpec) {
+			i := ensureExt(r, t, kind)
+			t.Exts[i].Critical = nil
+		}, func(r *Rng, n *EntitySpec) { n.Exts[extOfKind(n, kind)].Critical = bp(true) })
+	}
+	prof("profile-ext-leaf", func(r *Rng, t *EntitySpec, p *ProfileSpec) {
+		for {
+			x := genExt(r, Pick(r, []string{"keyUsage", "certificatePolicies", "subjectAlternativeName", "extendedKeyUsage", "authorityInformationAccess", "basicConstraints", "admission"}), false)
+			if x.Raw == "" {
+				x.Optional, x.Override = nil, nil
+				p.Exts = append(p.Exts, x)
+				return
+			}
+		}
+	}, func(r *Rng, n *ProfileSpec) {
+		i := len(n.Exts) - 1
+		if c, ok := leafEdit(r, n.Exts[i].Content); ok {
+			n.Exts[i].Content = c
+		}
+	})
 	entP("ext-content-to-raw", func(r *Rng, t *EntitySpec) { ensureExt(r, t, "keyUsage") }, func(r *Rng, n *EntitySpec) {
 		i := extOfKind(n, "keyUsage")
 		n.Exts[i].Content = nil
@@ -557,4 +595,87 @@ func invOps(p *Plan) []string {
 		}
 	}
 	return out
+}
+
+// leafEdit changes exactly one leaf of a structured extension content (or one position of one list).
+func leafEdit(r *Rng, raw json.RawMessage) (json.RawMessage, bool) {
+	if len(raw) == 0 {
+		return nil, false
+	}
+	holder := []any{parseOrdered(raw)}
+	var slots []slot
+	collectSlots(holder[0], func(nv any) { holder[0] = nv }, &slots)
+	if len(slots) == 0 {
+		return nil, false
+	}
+	enumSets := [][]string{keyUsages, extKeyUsages[:6], {"ip", "dns", "mail"}}
+	for try := 0; try < 20; try++ {
+		s := Pick(r, slots)
+		var nv any
+		switch v := s.cur.(type) {
+		case string:
+			nv = v + "x"
+			for _, set := range enumSets {
+				for _, m := range set {
+					if m == v {
+						for {
+							if c := Pick(r, set); c != v {
+								nv = c
+								break
+							}
+						}
+					}
+				}
+			}
+			switch {
+			case oidLike.MatchString(v) && strings.Count(v, ".") == 3 && !strings.Contains(v, "x") && len(v) <= 15 && isIPv4(v):
+				nv = bumpLastNumber(v, 255)
+			case oidLike.MatchString(v):
+				nv = bumpLastNumber(v, 1<<30)
+			case strings.HasPrefix(v, "!binary:"):
+				nv = "!binary:" + b64(r.Bytes(5))
+			case v == "hash":
+				nv = "!binary:AQIDBA=="
+			}
+		case json.Number:
+			n, _ := v.Int64()
+			nv = n + 1
+		case bool:
+			nv = !v
+		case []any:
+			switch {
+			case len(v) >= 2 && r.Bool() && !sameJSON(v[0], v[1]):
+				c := append([]any(nil), v...)
+				c[0], c[1] = c[1], c[0]
+				nv = c
+			case len(v) >= 2:
+				nv = append([]any(nil), v[:len(v)-1]...)
+			default:
+				continue
+			}
+		default:
+			continue
+		}
+		s.set(nv)
+		var bb bytes.Buffer
+		emitJSON(&bb, holder[0], "", "")
+		return json.RawMessage(bb.Bytes()), true
+	}
+	return nil, false
+}
+
+func isIPv4(s string) bool {
+	for _, p := range strings.Split(s, ".") {
+		n, err := strconv.Atoi(p)
+		if err != nil || n > 255 {
+			return false
+		}
+	}
+	return true
+}
+
+func bumpLastNumber(s string, mod int) string {
+	i := strings.LastIndex(s, ".")
+	n, _ := strconv.Atoi(s[i+1:])
+	return s[:i+1] + strconv.Itoa((n+1)%mod)
 }
